@@ -6,6 +6,7 @@ mod content;
 mod entries;
 mod gen;
 mod out;
+mod views;
 
 use serde_json::Value;
 use std::io::BufRead;
@@ -60,6 +61,10 @@ fn run_one(v: Value) {
         "tool" => {
             let s: container::ToolScn = serde_json::from_value(v).expect("bad tool scenario");
             container::tool(&s);
+        }
+        "views" => {
+            let s: views::Scn = serde_json::from_value(v).expect("bad views scenario");
+            views::run(&s);
         }
         "entries" => {
             let s: entries::Scn = serde_json::from_value(v).expect("bad entries scenario");
